@@ -69,6 +69,9 @@ pub enum MOp {
     DropPool(u8),
     /// many guards at once on container c (more than the fast slots)
     Hold(u8, u8),
+    /// store a clone of handle i (something a swap or load_full gave out earlier - for a Weak
+    /// possibly with its target already dropped) into container c, if the classes match
+    StoreHandle(u8, u8),
 }
 
 #[derive(Clone, Debug, PartialEq, Eq, Serialize, Deserialize)]
@@ -94,6 +97,7 @@ pub fn case_strategy() -> impl Strategy<Value = MCase> {
         2 => any::<u8>().prop_map(MOp::DropHandle),
         1 => (0u8..3).prop_map(MOp::DropPool),
         1 => ((0u8..4), 2u8..12).prop_map(|(c, n)| MOp::Hold(c, n)),
+        2 => ((0u8..4), any::<u8>()).prop_map(|(c, i)| MOp::StoreHandle(c, i)),
     ];
     (any::<bool>(), any::<bool>(), proptest::collection::vec(kind, 1..5), proptest::collection::vec(val(), 4), proptest::collection::vec(op, 1..40))
         .prop_map(|(rc_family, fallback_only, kinds, init, ops)| MCase { rc_family, fallback_only, kinds, init, ops })
@@ -199,6 +203,7 @@ pub struct MStats {
     pub weak_target_died: usize,
     pub debts_taken_over: usize,
     pub f9a_avoided: usize,
+    pub dead_weak_stored: usize,
     pub empties: usize,
     pub max_guards: usize,
     pub family_rc: usize,
@@ -238,6 +243,11 @@ struct World<F: Fam, St: AsStrategy<F::S> + AsStrategy<Option<F::S>> + AsStrateg
     next_id: u32,
     base_id: u32,
     stats: MStats,
+    /// Slots that were already occupied when the case started: an earlier case of this process
+    /// ended in a violation and everything it held was forgotten (nothing may be released in an
+    /// unknown state). They are nobody's business here; without this the shrinker, which re-runs
+    /// candidates in the same process, would "minimise" any failure to the empty program.
+    base_slots: HashMap<usize, usize>,
 }
 
 thread_local! {
@@ -340,6 +350,14 @@ where
                 }
             }
         }
+        for (a, n) in &self.base_slots {
+            if let Some(h) = have.get_mut(a) {
+                *h = h.saturating_sub(*n);
+                if *h == 0 {
+                    have.remove(a);
+                }
+            }
+        }
         if want != have {
             return Err(format!("borrow slots hold {:x?} but the live borrowing guards account for {:x?}", have, want));
         }
@@ -429,6 +447,10 @@ where
     /// guards of the *other* class on the same allocation are the ones finding F9a is about.
     /// Returns their number.
     fn before_removal(&mut self, old: Option<usize>, strong: bool) -> usize {
+        if old.is_none() {
+            // debts on the null pointer left behind by an earlier, failed case are paid too
+            self.base_slots.remove(&0);
+        }
         let mut exposed = 0;
         for g in self.guards.iter_mut() {
             if g.alloc == old && g.in_debt {
@@ -495,7 +517,7 @@ where
         };
         let addr = p as usize;
         let after = Self::snapshot();
-        let have = Self::slots_with(&after, addr);
+        let have = Self::slots_with(&after, addr).saturating_sub(self.base_slots.get(&addr).copied().unwrap_or(0));
         let tracked = self.guards.iter().filter(|g| g.in_debt && g.addr == addr).count();
         let (in_debt, slot) = if have == tracked + 1 {
             let free: Vec<(usize, usize)> = Self::changed(before, &after, true, addr).into_iter().filter(|k| !self.guards.iter().any(|g| g.in_debt && g.slot == Some(*k))).collect();
@@ -712,6 +734,43 @@ where
         self.after_removal(old, strong, exposed, Ok(()))
     }
 
+    fn write_handle(&mut self, c: usize, i: usize) -> Result<(), String> {
+        let kind = self.kind_of(c);
+        let strong = Self::class_strong(kind);
+        let (h_strong, a) = (matches!(self.handles[i].0, H::S(_)), self.handles[i].1);
+        if h_strong != strong {
+            return Ok(());
+        }
+        self.stats.writes += 1;
+        if let Some(a) = a {
+            if !self.alive_model(a) {
+                self.stats.dead_weak_stored += 1;
+            }
+        }
+        let old = self.cval[c];
+        if self.avoid(old, strong) {
+            return self.check_all();
+        }
+        let n_s: Option<F::S> = match &self.handles[i].0 {
+            H::S(s) => Some(s.clone()),
+            _ => None,
+        };
+        let n_w: F::W = match &self.handles[i].0 {
+            H::W(w) => w.clone(),
+            _ => F::dangling(),
+        };
+        let exposed = self.before_removal(old, strong);
+        self.own(a, strong, 1);
+        match &self.conts[c] {
+            Cont::S(x) => x.store(n_s.unwrap()),
+            Cont::O(x) => x.store(n_s),
+            Cont::W(x) => x.store(n_w),
+        }
+        self.cval[c] = a;
+        self.own(old, strong, -1);
+        self.after_removal(old, strong, exposed, Ok(()))
+    }
+
     fn cas(&mut self, c: usize, cur: MVal, new: MVal) -> Result<(), String> {
         let kind = self.kind_of(c);
         let strong = Self::class_strong(kind);
@@ -823,7 +882,14 @@ fn run_with<F: Fam, St>(case: &MCase) -> Result<MStats, String>
 where
     St: AsStrategy<F::S> + AsStrategy<Option<F::S>> + AsStrategy<F::W> + CaS<F::S> + CaS<Option<F::S>> + CaS<F::W> + Default,
 {
-    let mut w: World<F, St> = World { allocs: Vec::new(), conts: Vec::new(), cval: Vec::new(), guards: Vec::new(), handles: Vec::new(), next_id: 0, base_id: 0, stats: MStats::default() };
+    let mut w: World<F, St> = World { allocs: Vec::new(), conts: Vec::new(), cval: Vec::new(), guards: Vec::new(), handles: Vec::new(), next_id: 0, base_id: 0, stats: MStats::default(), base_slots: HashMap::new() };
+    for (_, sl) in World::<F, St>::snapshot() {
+        for s in sl {
+            if s != 3 {
+                *w.base_slots.entry(s).or_insert(0) += 1;
+            }
+        }
+    }
     w.stats.family_rc = case.rc_family as usize;
     w.stats.fallback_only = case.fallback_only as usize;
     for _ in 0..3 {
@@ -878,6 +944,10 @@ where
                 MOp::DropHandle(i) if !w.handles.is_empty() => {
                     let i = i as usize * w.handles.len() >> 8;
                     w.drop_handle(i)
+                }
+                MOp::StoreHandle(c, i) if !w.handles.is_empty() => {
+                    let i = i as usize * w.handles.len() >> 8;
+                    w.write_handle(c as usize % nc, i)
                 }
                 MOp::DropPool(i) => {
                     let i = i as usize % 3;
